@@ -1092,6 +1092,26 @@ class AdvancedHTMLParser(HTMLParser):
         return rootNode.blocks
 
 
+class _OtherAttributeIndexFunction(object):
+    '''
+        _OtherAttributeIndexFunction - The index function for an attribute added through addIndexOnAttribute.
+
+          A module-level callable rather than a closure, so that a parser carrying one can be pickled.
+    '''
+
+    def __init__(self, attributeName):
+        self.attributeName = attributeName
+
+    def __call__(self, parser, tag):
+        attributeName = self.attributeName
+
+        thisAttribute = tag.getAttribute(attributeName)
+        if thisAttribute is not None:
+            if thisAttribute not in parser._otherAttributeIndexes[attributeName]:
+                parser._otherAttributeIndexes[attributeName][thisAttribute] = []
+            parser._otherAttributeIndexes[attributeName][thisAttribute].append(tag)
+
+
 class IndexedAdvancedHTMLParser(AdvancedHTMLParser):
     '''
         An AdvancedHTMLParser that indexes for much much faster searching. If you are doing searching/validation, this is your bet.
@@ -1255,15 +1275,7 @@ class IndexedAdvancedHTMLParser(AdvancedHTMLParser):
         attributeName = attributeName.lower()
         self._otherAttributeIndexes[attributeName] = {}
 
-        def _otherIndexFunction(self, tag):
-            thisAttribute = tag.getAttribute(attributeName)
-            if thisAttribute is not None:
-                if thisAttribute not in self._otherAttributeIndexes[attributeName]:
-                    self._otherAttributeIndexes[attributeName][thisAttribute] = []
-                self._otherAttributeIndexes[attributeName][thisAttribute].append(tag)
-
-
-        self.otherAttributeIndexFunctions[attributeName] = _otherIndexFunction
+        self.otherAttributeIndexFunctions[attributeName] = _OtherAttributeIndexFunction(attributeName)
 
     def removeIndexOnAttribute(self, attributeName):
         '''
